@@ -8,6 +8,8 @@ Definition op_of (z : Z) : vop := nth (Z.to_nat z) all_ops Eq.
 (* (the code yields a value, F&O defines the comparison); v = 1 for the 3.1 parser *)
 Definition run_vc (v o a b : Z) : list Z :=
   [b2z (vc_defined (v =? 1) (op_of o) (ty_of a) (ty_of b)); b2z (vc_spec (v =? 1) (op_of o) (ty_of a) (ty_of b))].
+Definition run_gcc (v o a b : Z) : list Z :=
+  [b2z (gc_compat_defined (v =? 1) (op_of o) (ty_of a) (ty_of b)); b2z (gc_compat_spec (v =? 1) (op_of o) (ty_of a) (ty_of b))].
 Definition run_gc (v o a b : Z) : list Z :=
   [b2z (gc_defined (v =? 1) (op_of o) (ty_of a) (ty_of b)); b2z (gc_spec (v =? 1) (op_of o) (ty_of a) (ty_of b))].
 (* general comparison on integer sequences: op 0 = | 1 != | 2 < | 3 <= | 4 > | 5 >= *)
